@@ -17,6 +17,9 @@ import (
 
 const nDims = 5
 
+const maxSignaturesPerClause = 4
+const maxDetailsPerClause = 8
+
 var dimNames = [nDims]string{"backend", "limits", "content", "kind", "name"}
 
 type dims [nDims]string
@@ -148,8 +151,32 @@ type signature struct {
 // signatures computes the generalised signatures.
 func (r *recorder) signatures() []signature {
 	type group struct{ Family, Detail string }
-	groups := map[group][]violKey{}
+	// a clause violated with many different details (e.g. by most methods of the interface) is one defect
+	details := map[string]map[string]bool{}
 	for k := range r.viol {
+		if details[k.Family] == nil {
+			details[k.Family] = map[string]bool{}
+		}
+		details[k.Family][k.Detail] = true
+	}
+	merged := map[violKey]*violRec{}
+	for k, v := range r.viol {
+		if len(details[k.Family]) > maxDetailsPerClause {
+			k.Detail = "various"
+		}
+		if m := merged[k]; m != nil {
+			m2 := *m
+			m2.Count += v.Count
+			if v.Order.less(m2.Order) {
+				m2.Order, m2.First = v.Order, v.First
+			}
+			merged[k] = &m2
+		} else {
+			merged[k] = v
+		}
+	}
+	groups := map[group][]violKey{}
+	for k := range merged {
 		g := group{k.Family, k.Detail}
 		groups[g] = append(groups[g], k)
 	}
@@ -206,30 +233,44 @@ func (r *recorder) signatures() []signature {
 				}
 			}
 		}
-		bySig := map[string]*signature{}
-		for _, k := range keys {
-			p := project(k.D, level)
-			var parts []string
-			parts = append(parts, g.Family)
-			if g.Detail != "" {
-				parts[0] += "=" + g.Detail
-			}
-			for i := 0; i < nDims; i++ {
-				if level[i] != 2 && p[i] != "-" {
-					parts = append(parts, dimNames[i]+"="+p[i])
+		build := func(level [nDims]int, suffix string) map[string]*signature {
+			bySig := map[string]*signature{}
+			for _, k := range keys {
+				p := project(k.D, level)
+				var parts []string
+				parts = append(parts, g.Family)
+				if g.Detail != "" {
+					parts[0] += "=" + g.Detail
+				}
+				for i := 0; i < nDims; i++ {
+					if level[i] != 2 && p[i] != "-" {
+						parts = append(parts, dimNames[i]+"="+p[i])
+					}
+				}
+				s := strings.Join(parts, ":") + suffix
+				v := merged[k]
+				sg := bySig[s]
+				if sg == nil {
+					sg = &signature{Sig: s, First: v.First, order: v.Order}
+					bySig[s] = sg
+				}
+				sg.Count += v.Count
+				if v.Order.less(sg.order) {
+					sg.order, sg.First = v.Order, v.First
 				}
 			}
-			s := strings.Join(parts, ":")
-			v := r.viol[k]
-			sg := bySig[s]
-			if sg == nil {
-				sg = &signature{Sig: s, First: v.First, order: v.Order}
-				bySig[s] = sg
+			return bySig
+		}
+		bySig := build(level, "")
+		// One defect must not fan out into dozens of signatures: when the class tuple does not determine the
+		// violation (it depends on something the classes do not capture, e.g. the depth of the entry), dimensions
+		// are given up — name first — until at most maxSignaturesPerClause remain; the signature then says so.
+		for _, i := range []int{4, 2, 3, 1, 0} {
+			if len(bySig) <= maxSignaturesPerClause {
+				break
 			}
-			sg.Count += v.Count
-			if v.Order.less(sg.order) {
-				sg.order, sg.First = v.Order, v.First
-			}
+			level[i] = 2
+			bySig = build(level, ":varies")
 		}
 		for _, sg := range bySig {
 			out = append(out, *sg)
